@@ -158,14 +158,17 @@ Print Assumptions C08_valid_after_failures_behaviour_refuted.
 
 (* ---- 7. what holds over ALL histories without any side condition on the failures ----
    After ANY history whatsoever (failed and successful attempts of every kind, file rewrites) a valid
-   configuration loads — it succeeds, in bounded time (4), and its instance is appended to the list —
+   configuration loads — it succeeds, in bounded time (4), its instance is appended to the list, serves
+   its own marker and authenticates against the CURRENT contents of its htpasswd file ([expected_auth]
+   is computed from the configuration and the environment alone) —
    provided only that the htpasswd cache is not stale for the files it uses (trivially true for a
    configuration without htpasswd lines: the stale cache is the one way a failure can reach it). *)
 Theorem C08_valid_config_loads_after_any_history :
   forall h e rs e' g' step v,
   run 1 h (e, g0) = (rs, (e', g')) ->
   cfg_valid e' v = true -> cache_fresh e' g' (c_effs v) ->
-  exists g'' ni, do_load step e' v g' = (ROk, g'') /\ g_insts g'' = g_insts g' ++ [ni] /\ i_cfg ni = c_id v.
+  exists g'' ni, do_load step e' v g' = (ROk, g'') /\ g_insts g'' = g_insts g' ++ [ni] /\ i_cfg ni = c_id v /\
+                 i_auth ni = expected_auth e' (c_effs v) None.
 Proof. exact valid_load_after_any_history. Qed.
 Print Assumptions C08_valid_config_loads_after_any_history.
 
@@ -173,7 +176,8 @@ Theorem C08_valid_config_without_htpasswd_always_loads :
   forall h e rs e' g' step v,
   run 1 h (e, g0) = (rs, (e', g')) ->
   cfg_valid e' v = true -> no_auth (c_effs v) = true ->
-  exists g'' ni, do_load step e' v g' = (ROk, g'') /\ g_insts g'' = g_insts g' ++ [ni] /\ i_cfg ni = c_id v.
+  exists g'' ni, do_load step e' v g' = (ROk, g'') /\ g_insts g'' = g_insts g' ++ [ni] /\ i_cfg ni = c_id v /\
+                 i_auth ni = expected_auth e' (c_effs v) None.
 Proof.
   intros h e rs e' g' step v R V NA.
   eapply valid_load_after_any_history; eauto. apply no_auth_cache_fresh. exact NA.
@@ -183,7 +187,8 @@ Print Assumptions C08_valid_config_without_htpasswd_always_loads.
 Theorem C08_valid_reload_succeeds :
   forall step e c g old rest,
   g_htlock g = false -> g_insts g = old :: rest -> cfg_valid e c = true -> cache_fresh e g (c_effs c) ->
-  exists g' ni, do_reload step e c g = (ROk, g') /\ g_insts g' = rest ++ [ni] /\ i_cfg ni = c_id c.
+  exists g' ni, do_reload step e c g = (ROk, g') /\ g_insts g' = rest ++ [ni] /\ i_cfg ni = c_id c /\
+                i_auth ni = expected_auth e c.(c_effs) None.
 Proof. exact valid_reload_succeeds. Qed.
 Print Assumptions C08_valid_reload_succeeds.
 
